@@ -290,7 +290,7 @@ theorem dfs_node_lim (p : Plan) (rp : RootParams) (dirPath dirCanon : Str) (lvl 
             have hd := depth_child dirCanon de.name rp.base hname hc hb
             rw [hd, hlvl]
             have ih := dfs_list_lim p rp (fillEntry de dirPath dirCanon de.absPath).path (childCanon dirCanon de.name) (lvl + 1)
-              (childCanon_long dirCanon de.name hc) (base_le_child dirCanon de.name rp.base hb) (by rw [hd, hlvl])
+              (childCanon_long dirCanon de.name hc) (base_le_child dirCanon de.name rp.base hname hc hb) (by rw [hd, hlvl])
               kids { res := r1, walk := { st.walk with visited := st.walk.visited ++ [de.ino] } } hgk hnd' hfresh'
             simp only at ih
             cases hf : foldLim p r1 (checksL p rp (eventsL rp (fillEntry de dirPath dirCanon de.absPath).path (childCanon dirCanon de.name) (lvl + 1) kids)) with
